@@ -261,3 +261,45 @@ def phase_castmatrix(ctx, phase):
     ctx.behaviours += len(spec)
     ctx.replay_stats["steps_new"] = ctx.replay_stats.get("steps_new", 0) + n
     return d
+
+
+# ------------------------------------------------------------------------------------------
+# C19: every accepted operator overload has an implementation or NotSupportedError on every backend
+
+def phase_impls(ctx, phase):
+    from pydiverse.transform._internal.backend.mssql import MsSqlImpl
+    from pydiverse.transform._internal.backend.polars import PolarsImpl
+    from pydiverse.transform._internal.backend.postgres import PostgresImpl
+    from pydiverse.transform._internal.backend.sqlite import SqliteImpl
+
+    from . import catalog as C
+    from . import dialects as D
+
+    D.install_stubs()
+    code = C.enumerate_code(phase.get("max_arity", 2))
+    uni = {C.tok(t): t for t in C.all_types()}
+    ops = dict(C.operators())
+    impls = {"polars": PolarsImpl, "sqlite": SqliteImpl, "postgres": PostgresImpl, "mssql": MsSqlImpl}
+    n = 0
+    unsupported = 0
+    for (opn, args), out in code.items():
+        if out[0] != "match":
+            continue
+        sig = tuple(uni[a] for a in args)
+        for bk, impl in impls.items():
+            n += 1
+            try:
+                f = impl.get_impl(ops[opn], sig)
+                if not callable(f):
+                    raise TypeError(f"get_impl returned {f!r}")
+            except Exception as e:  # noqa: BLE001
+                if type(e).__name__ == "NotSupportedError":
+                    unsupported += 1
+                    continue
+                ctx.failures.append(dict(clause="impl-internal", backend=bk, step=0, exc=type(e).__name__, tainted=False, src=[], srcidx=0,
+                                         detail=f"get_impl({opn}, {args}) on {bk} raised {type(e).__name__}: {e}",
+                                         moves=[dict(v="resolve", op=opn, args=list(args))], heap_obs=[], beh=dict(op=opn, args=list(args), backend=bk)))
+    ctx.replay_stats["steps_new"] = ctx.replay_stats.get("steps_new", 0) + n
+    ctx.replay_stats["impl_lookups"] = n
+    ctx.replay_stats["impl_not_supported"] = unsupported
+    return None
